@@ -38,3 +38,14 @@ for a in range(5):
 for sh in range(3): hs.append(H("H13_History",5,3,2,sh,3,"thorough",prefix=2,events=EV13))
 c['harnesses']=hs
 json.dump(c,open('/verif/checks/C13.json','w'),indent=1)
+
+# C18: spray-and-wait (algo 1) with budget 2, events without restart (5) and received bundles (8)
+c=json.load(open('/verif/checks/C18.json'))
+hs=[h for h in c['harnesses'] if h['name']!='H18_History']
+EV18=sum(1<<i for i in (0,1,2,3,4,6,7,9))
+for sh in range(3):
+    h=H("H18_History",1,3,2,sh,3,"quick",events=EV18); h['env']['mult']="2"; hs.append(h)
+for sh in range(8):
+    h=H("H18_History",1,4,2,sh,8,"thorough",events=EV18); h['env']['mult']="2"; hs.append(h)
+c['harnesses']=hs
+json.dump(c,open('/verif/checks/C18.json','w'),indent=1)
